@@ -251,7 +251,8 @@ def run_case(case):
         n, m, p, multi, ptype = a["n"], a["m"], a["p"], a["multiedges"], a.get("p_type", "prob")
         H, ex, rec = guarded(lambda: xgi.uniform_erdos_renyi_hypergraph(n, m, p, p_type=ptype, multiedges=multi, seed=seed))
         if ex is not None:
-            fails.append(("p1-raises" if p == 1 else "raises", repr(ex)[:200]))
+            if not (ptype == "degree" and type(ex).__name__ == "XGIError"):   # mean degree that gives q > 1: rejected
+                fails.append(("p1-raises" if p == 1 else "raises", repr(ex)[:200]))
             return out(None, ex)
         snap = snapshot(H)
         fails += pred_common(H, snap, range(n)) + pred_sizes(snap, {m}, "size-not-m")
@@ -383,7 +384,7 @@ def run_case(case):
             return out(None, ex)
         snap = snapshot(H)
         fails += pred_common(H, snap, range(n))
-        if p == 0:
+        if p == 0 and l + k // 2 + d - 1 <= n:
             fails += pred_sizes(snap, {d}, "size-not-d")
         fails += pred_sizes(snap, set(range(1, d + 1)))
         return out(snap, None)
@@ -405,7 +406,7 @@ def run_case(case):
 
     if f == "sunflower":
         l, c, m = a["l"], a["c"], a["m"]
-        H, ex, rec = guarded(lambda: xgi.sunflower(l, c, m), seconds=2.0)
+        H, ex, rec = guarded(lambda: xgi.sunflower(l, c, m), seconds=0.3)
         if ex is not None:
             fails.append(("nonterminating" if isinstance(ex, Timeout) else "raises", repr(ex)[:200]))
             return out(None, ex)
@@ -623,7 +624,7 @@ def gen_cases(ctx, scale=1):
         nb = rng.randint(1, 3 if m == 2 else 2)
         sizes = [rng.randint(0 if rng.random() < 0.1 else 1, 4 if m == 2 else 3) for _ in range(nb)]
         mode = rng.random()
-        vals = [1.0] if mode < 0.1 else ([0.0, 1.0] if mode < 0.3 else PS)
+        vals = [1.0] if mode < 0.1 else ([0.0, 1.0] if mode < 0.25 else (PS if mode < 0.6 else [0.0, 0.3, 0.9]))
         p = np.array([rng.choice(vals) for _ in range(nb ** m)]).reshape([nb] * m)
         add("uniform_HSBM", {"m": m, "sizes": sizes, "p": p.tolist()}, rng.randrange(10 ** 6))
     for _ in range(ctx.n(20, 200) * scale):
@@ -676,6 +677,8 @@ def gen_cases(ctx, scale=1):
     for l in range(0, 5):
         for c in range(0, 4):
             for m in range(max(c, 1), c + 4):
+                if m == c and (l, c) not in ((0, 1), (2, 2), (3, 1)):
+                    continue   # core-only sunflowers: three representatives (each costs a time-out while unfixed)
                 add("sunflower", {"l": l, "c": c, "m": m})
     for ns in range(1, 5):
         for nc in range(1, 6):
@@ -693,9 +696,9 @@ def gen_cases(ctx, scale=1):
         n = rng.randint(0, 7)
         dens = rng.choice([0.2, 0.5, 0.8, 1.0])
         edges = [list(e) for e in itertools.combinations(range(n), 2) if rng.random() < dens]
-        mo = rng.choice([1, 2, 3, 4, None])
+        mo = rng.choice([1, 2, 3, 4])   # documented as int; max_order=None (maximal cliques incl. isolated nodes) is not exercised
         r = rng.random()
-        ps = None if r < 0.5 else [rng.choice(PS) for _ in range(rng.randint(1, 3))]
+        ps = None if (r < 0.5 or mo is None) else [rng.choice(PS) for _ in range(rng.randint(1, 3))]
         add("flag_complex", {"n": n, "edges": edges, "max_order": mo, "ps": ps}, rng.randrange(10 ** 6))
         add("flag_complex_d2", {"n": n, "edges": edges, "p2": rng.choice([None, 0.0, 1.0, 0.5])}, rng.randrange(10 ** 6))
         add("random_flag_complex", {"n": n, "p": rng.choice(PS), "max_order": rng.choice([1, 2, 3])}, rng.randrange(10 ** 6))
